@@ -98,13 +98,45 @@ def decides : Option Tester → Bool
 def firstMatch (ws : List Tester) (parent : QName) : Bool :=
   decides (ws.find? (fun t => t.matches parent))
 
+/-! ### `xml:space` in the source (XSLT §3.4, third bullet) -/
+
+/-- `isXMLSpacePreserved` (StylesheetRoot.cpp): walk from the parent element upwards; the nearest element that
+carries an `xml:space` attribute decides (`"preserve"` → true, any other value → false); none → false.
+The argument lists the attribute of the parent and of its ancestors, nearest first:
+`some true` = `"preserve"`, `some false` = another value (`"default"`), `none` = no attribute. -/
+def spacePreservedWalk : List (Option Bool) → Bool
+  | [] => false
+  | some b :: _ => b
+  | none :: rest => spacePreservedWalk rest
+
+/-- §3.4: "an ancestor element of the text node has an xml:space attribute with a value of preserve, and no
+closer ancestor element has xml:space with a value of default" -/
+def specSpacePreserved (chain : List (Option Bool)) : Bool :=
+  (chain.takeWhile (· != some false)).contains (some true)
+
+/-- the state a parser hands down while building the tree: an element's own attribute, else its parent's state -/
+def inheritSpace (parentState : Bool) (own : Option Bool) : Bool :=
+  match own with
+  | some b => b
+  | none => parentState
+
+/-- What the decision needs to know about the parent element of a text node: its expanded name and whether
+`xml:space="preserve"` is in force there (`spacePreservedWalk` of its ancestor-or-self chain). -/
+structure Tag where
+  name : QName
+  preserve : Bool := false
+  /-- the element's attributes (expanded name, value), namespace declarations excluded; stripping never touches them -/
+  attrs : List (QName × String) := []
+deriving DecidableEq, Repr, Inhabited
+
 /-- `StylesheetRoot::shouldStripSourceNode(text)`: `parent = none` for a text node whose parent is not an
-element (or absent); `isWs` is the precomputed `XalanText::isWhitespace()` flag. -/
-def shouldStrip (ws : List Tester) (parent : Option QName) (isWs : Bool) : Bool :=
+element (or absent); `isWs` is the precomputed `XalanText::isWhitespace()` flag.  A matching `eStrip` tester
+strips unless `xml:space="preserve"` is in force (`… == eStrip && isXMLSpacePreserved(theElement) == false`). -/
+def shouldStrip (ws : List Tester) (parent : Option Tag) (isWs : Bool) : Bool :=
   if !ws.isEmpty && isWs then            -- hasPreserveOrStripSpaceElements() && isWhitespace()
     match parent with
     | none => false
-    | some p => firstMatch ws p
+    | some p => firstMatch ws p.name && !p.preserve
   else false
 
 /-! ## Specification (XSLT 1.0 §2.6.2 import precedence, §3.4 whitespace stripping) -/
@@ -133,10 +165,10 @@ def bestIn (parent : QName) (decls : List Tester) : Option Tester :=
 def specWinner (s : Sheet) (parent : QName) : Option Tester :=
   s.postorder.reverse.findSome? (bestIn parent)
 
-def specStrip (s : Sheet) (parent : Option QName) (isWs : Bool) : Bool :=
+def specStrip (s : Sheet) (parent : Option Tag) (isWs : Bool) : Bool :=
   match parent with
   | none => false
-  | some p => isWs && decides (specWinner s p)
+  | some p => isWs && decides (specWinner s p.name) && !p.preserve
 
 /-- XML whitespace: `isXMLWhitespace` — space, tab, CR, LF only -/
 def isWsChar (c : Char) : Bool := c == ' ' || c == '\t' || c == '\n' || c == '\r'
